@@ -3,7 +3,7 @@ Engine: nprobe canon (real CanonicalizePath, ASan+UBSan, exact-size heap buffers
 Oracle: ten-line reference normaliser compiled into the probe + idempotence, never longer,
 leading '/' kept, slash_bits==0, std::string overload agrees."""
 
-MANIFEST = {'engine': 'nprobe', 'category': 'exploration', 'technique': 'runtime monitoring: real CanonicalizePath under ASan/UBSan; bounded-exhaustive + random inputs; reference-normaliser oracle', 'text': 'Every string over {a,b,.,/} up to length 10 (quick) / 13 (thorough) and 0.2M / 5M random long paths are pushed through the real function in exact-size heap buffers; each result is compared with a ten-line reference normaliser and checked for idempotence, non-growth, kept root. Exhaustive where the structure lives, sampled beyond; a sanitizer report is a violation.', 'note': 'Trusted: the reference normaliser (harness/probe_canon.cc RefCanon), ASan red zones. Empty string excluded (callers reject it).', 'ref': 'DESIGN.md §5 C14'}
+MANIFEST = {'engine': 'nprobe', 'category': 'exploration', 'technique': 'runtime monitoring: real CanonicalizePath under ASan/UBSan; bounded-exhaustive + random inputs; reference-normaliser oracle', 'text': 'Every string over {a,b,.,/} up to length 10 (quick) / 13 (thorough) and 0.2M / 5M random long paths and 32k shaped deep paths (descend D components, climb U, all D,U<=72) are pushed through the real function in exact-size heap buffers; each result is compared with a ten-line reference normaliser and checked for idempotence, non-growth, kept root. Exhaustive where the structure lives, sampled beyond; a sanitizer report is a violation.', 'note': 'Trusted: the reference normaliser (harness/probe_canon.cc RefCanon), ASan red zones. Empty string excluded (callers reject it).', 'ref': 'DESIGN.md §5 C14'}
 
 from .. import build, util, core
 import json
@@ -27,7 +27,8 @@ def run(ctx):
             for i in range(n)]
     res = util.run_many(cmds, timeout=3600)
     ctx.rule = ("every string over {a,b,.,/} of length 1..%d (exhaustive) plus random long paths "
-                "(up to 400 components, arbitrary non-NUL bytes); distinct_nontrivial = number of "
+                "(up to 400 components, arbitrary non-NUL bytes) plus shaped paths (descend D, climb U times with '..', "
+                "descend again, all D, U <= 72); distinct_nontrivial = number of "
                 "inputs of the exhaustive enumeration (all distinct by construction) that "
                 "canonicalisation changes" % maxlen)
     ctx.exhaustive = False  # the alphabet-bounded part is exhaustive, the property's domain is not
@@ -45,7 +46,7 @@ def run(ctx):
         ctx.evaluations += j["evals"]
         ctx.distinct_extra += j["changed_exh"]
         ctx.count("distinct_canonical_outputs_per_shard_sum", j["distinct_out"])
-        for k in ("exhaustive", "random", "changed", "idem_checks", "string_overload", "mismatches"):
+        for k in ("exhaustive", "random", "shaped", "changed", "idem_checks", "string_overload", "mismatches"):
             ctx.count(k, j[k])
         for s in j["samples"]:
             ctx.sample(util.unhex(s).decode("latin-1"))
